@@ -768,6 +768,10 @@ class RemoteStop(_S):
     def native_search(self, budget):
         for behaviour in ("hangs_up", "silent", "replies"):
             yield {"remote": behaviour}
+        # ... and with a history: an earlier request was answered with an exception raised in the simulator's handler (the
+        # connection and the process are healthy: the simulator must still be told to stop, the channel still be closed)
+        for behaviour in ("hangs_up", "replies"):
+            yield {"remote": behaviour, "earlier_request": "handler_raised"}
 
     def native_call(self, m):
         if "remote" not in m:
@@ -793,6 +797,9 @@ class RemoteStop(_S):
 
             async def remote():                       # the simulator's side
                 rc = Channel(r, w)
+                if m.get("earlier_request") == "handler_raised":
+                    req0 = await rc.next_request()
+                    await req0.set_exception(ValueError("boom in the simulator's step"))
                 req = await rc.next_request()
                 got.append(req.content[0])
                 if m["remote"] == "hangs_up":
@@ -803,6 +810,11 @@ class RemoteStop(_S):
                 else:
                     await asyncio.sleep(3600)
             rt = asyncio.ensure_future(remote())
+            if m.get("earlier_request") == "handler_raised":
+                try:
+                    await asyncio.wait_for(proxy.send(["step", [0, {}, 1], {}]), 3)
+                except Exception:  # noqa: BLE001  (the RemoteException of the failed step)
+                    pass
             try:
                 await asyncio.wait_for(proxy.stop(), 3)
                 hung = False
@@ -821,7 +833,8 @@ class RemoteStop(_S):
         finally:
             loop.close()
         ok = not hung and closing and done and got == ["stop"]
-        return ok, (f"RemoteProxy.stop against a simulator that {m['remote']} on 'stop': still waiting after 3 s: {hung}, connection "
+        return ok, (f"RemoteProxy.stop{' after a request that the simulator answered with an exception' if m.get('earlier_request') else ''} "
+                    f"against a simulator that {m['remote']} on 'stop': still waiting after 3 s: {hung}, connection "
                     f"closed: {closing}, request-handler task finished: {done}, requests seen by the simulator: {got}")
 
 
